@@ -92,6 +92,11 @@ def judge(c, r, tc, root):
     # exit 0
     j = tc.get(c["dir"])
     has_derived = os.path.exists(os.path.join(root, c["dir"], "derived.gen.go"))
+    if j is not None and not has_derived and (c.get("mustok") or c.get("tag")) and not c["userbad"] and (j["parse"] or j["types"]):
+        # exit 0, but the file the package needs is not there (never written, or removed again)
+        problems.append(("C09/exit0-package-left-without-derived-file:" + (c.get("tag") or pl),
+                         "exit 0, but no derived.gen.go is left and the package does not type-check (%s): %s" % (c["what"], (j["parse"] + j["types"])[0][:200])))
+        return problems, notes
     if j is None or not has_derived:
         return problems, notes
     derived_parse = [x for x in j["parse"] if x.startswith("derived.gen.go")]
@@ -115,9 +120,14 @@ def judge(c, r, tc, root):
     errs = j["parse"] + j["types"]
     if errs:
         kind = ill_kind(errs[0])
-        if c.get("mustok"):
+        if c.get("mustok") and c.get("tag"):
+            problems.append(("C09/exit0-ill-typed:" + c["tag"], "supported input (%s): exit 0 and the package does not type-check: %s" % (
+                c["what"], errs[0][:250])))
+        elif c.get("mustok"):
             problems.append(("C09/exit0-ill-typed:%s:%s:%s" % (c["family"], pl, kind), "supported input (%s): exit 0 and the package does not type-check: %s" % (
                 c["what"], errs[0][:250])))
+        elif c["unsupp"] and c.get("tag"):
+            problems.append(("C09/exit0-ill-typed:" + c["tag"], "exit 0 and the package does not type-check (%s): %s" % (c["what"], errs[0][:250])))
         elif c["unsupp"]:
             problems.append(("C09/exit0-ill-typed:%s:%s" % (pl, kind), "unsupported argument (%s) accepted: exit 0 and the package does not type-check: %s" % (
                 c["what"], errs[0][:250])))
